@@ -27,6 +27,7 @@ func runC12(w *World, r *Report) {
 	r.Rule("R-C12-1", "effect confinement: diagnostics-only functions and blocks guarded by a diagnostics test write no Context field except {profileSlot, profileStart}, call no function that does, and call no symbol-table mutator", 15)
 	r.Rule("R-C12-4", "no nested acquisition of the context mutex: a function that holds bytecode.Context.mux calls on that context no method that takes it again (profiling, tracing and line bookkeeping run under it while a goroutine is being launched)", 3)
 	noNestedAcquire(w, r, "R-C12-4", "internal/language/bytecode", "Context")
+	c12SignalsAreNotErrors(w, r)
 	r.Rule("R-C12-2", "lock pairing: every Lock/RLock in packages bytecode and debugger is released on all paths to a return (directly or by defer)", 10)
 
 	bp := w.pkg("internal/language/bytecode")
@@ -554,4 +555,78 @@ func lookupConstIntAny(w *World, rel, name string) *int64 {
 	}
 
 	return lookupConstInt(p, name)
+}
+
+// c12SignalsAreNotErrors: R-C12-5. The values instructions return to talk to the
+// run loop (stop, hand control to the debugger, a panic is unwinding) are not
+// errors of the program: handleCatch must pass each through before it looks at
+// the try stack, or a diagnostic mode changes which catch blocks run.
+var c12Signals = []string{"ErrStop", "ErrSignalDebugger", "ErrPanicActive"}
+
+func c12SignalsAreNotErrors(w *World, r *Report) {
+	r.Rule("R-C12-5", "bytecode.handleCatch passes every run-loop signal (ErrStop, ErrSignalDebugger, ErrPanicActive) through without consulting the try stack: the jump to a catch address is unreachable once the 'err is not this signal' edge of its test is removed", 3)
+
+	bp := w.pkg("internal/language/bytecode")
+
+	fn := w.ssaFunc(bp, "handleCatch")
+	if fn == nil {
+		r.Anchor("R-C12-5", "bytecode.handleCatch")
+
+		return
+	}
+
+	// the dispatch: the store of the catch address into the program counter
+	var dispatch ssa.Instruction
+
+	allInstrs(fn, func(in ssa.Instruction) {
+		if st, ok := in.(*ssa.Store); ok && isFieldNamed(st.Addr, "programCounter") {
+			dispatch = in
+		}
+	})
+
+	if dispatch == nil {
+		r.Anchor("R-C12-5", "the store to Context.programCounter in handleCatch")
+
+		return
+	}
+
+	for _, sig := range c12Signals {
+		key := "bytecode.handleCatch|passes " + sig + " through"
+
+		n := 0
+
+		cuts := cutEdges(fn, func(f Fact) bool {
+			if f.Kind != "false" {
+				return false
+			}
+
+			c, ok := f.V.(*ssa.Call)
+			if !ok || !strings.HasSuffix(callID(c.Common()), "errors.Equals") || len(c.Call.Args) != 2 {
+				return false
+			}
+
+			for _, a := range c.Call.Args {
+				if derivesFrom(a, func(v ssa.Value) bool {
+					g, isG := v.(*ssa.Global)
+
+					return isG && g.Name() == sig
+				}, nil) {
+					n++
+
+					return true
+				}
+			}
+
+			return false
+		})
+
+		switch {
+		case n == 0:
+			r.Violate("R-C12-5", key, w.pos(fn.Pos()), "handleCatch never tests for "+sig+": when an instruction returns it inside a try body, the signal is taken for an error of the program and the catch block runs (under --debug every statement start returns ErrSignalDebugger, so the first statement of every try body jumps to its catch block)")
+		case instrReachableAfterCut(fn, dispatch, cuts):
+			r.Violate("R-C12-5", key, w.pos(dispatch.Pos()), "the jump to the catch address is reachable for "+sig)
+		default:
+			r.Discharge("R-C12-5", key, w.pos(fn.Pos()), "returned before the try stack is consulted")
+		}
+	}
 }
